@@ -46,7 +46,7 @@ def run(ctx):
                  (3, 2, 1, 0, 10, ["macro"], 10 ** 9),
                  (2, 1, 1, 14, 12, ["macro"], 10 ** 9),
                  (3, 2, 2, 14, 0, ["gen", "fifo"], 0),
-                 (3, 2, 2, 0, 8, ["macro"], 6000)]
+                 (3, 2, 2, 0, 8, ["macro"], 4000)]
     scripts = []
     generated = 0
     for i, (n, ci, cb, depth, mdepth, modes, keep) in enumerate(runs):
